@@ -628,3 +628,136 @@ Lemma image_space_data_refuted :
   decode_content (encode_content
     [mkop "BI" [OStream [(bs "W", OInt 1); (bs "H", OInt 1); (bs "CS", OName (bs "Gray")); (bs "BPC", OInt 8)] [x20]]]) = DecErr.
 Proof. vm_compute. reflexivity. Qed.
+
+(* ---------- what decode delivers for an inline image ---------- *)
+
+Lemma dict_set_keys d k v :
+  map fst (dict_set d k v) = if dict_has d k then map fst d else map fst d ++ [k].
+Proof.
+  unfold dict_has. induction d as [|[k' v'] d IH]; [reflexivity|]. cbn [dict_set dict_get map fst].
+  destruct (bytes_eqb k' k) eqn:E; [reflexivity|]. cbn [map fst]. rewrite IH.
+  destruct (dict_get d k); reflexivity.
+Qed.
+
+Lemma dict_has_In d k : dict_has d k = false -> ~ In k (map fst d).
+Proof.
+  unfold dict_has. induction d as [|[k' v'] d IH]; [intros _ []|]. cbn [dict_get map fst In].
+  destruct (bytes_eqb k' k) eqn:E; [discriminate|]. intros H [K|K].
+  - subst. rewrite bytes_eqb_refl in E. discriminate.
+  - apply IH; assumption.
+Qed.
+
+Lemma nodup_snoc {A} (l : list A) x : NoDup l -> ~ In x l -> NoDup (l ++ [x]).
+Proof.
+  induction 1 as [|y l Hy Hl IH]; intro Hx; cbn [app]; [constructor; [intros []|constructor]|].
+  constructor.
+  - rewrite in_app_iff. intros [K|[K|[]]]; [contradiction|]. subst. apply Hx. left. reflexivity.
+  - apply IH. intro K. apply Hx. right. exact K.
+Qed.
+
+Lemma dict_set_nodup d k v : NoDup (map fst d) -> NoDup (map fst (dict_set d k v)).
+Proof.
+  intro H. rewrite dict_set_keys. destruct (dict_has d k) eqn:E; [exact H|].
+  apply nodup_snoc; [exact H|apply dict_has_In; exact E].
+Qed.
+
+Lemma inner_dictionary_nodup elem : forall n s acc d r,
+  inner_dictionary elem n s acc = POk d r -> NoDup (map fst acc) -> NoDup (map fst d).
+Proof.
+  induction n as [|n IH]; intros s acc d r H Hn; [discriminate|]. cbn [inner_dictionary] in H.
+  destruct (name s) as [k r1| | | |]; try (inversion H; subst; exact Hn).
+  destruct (elem (space r1)) as [v r2| | | |]; try discriminate; try (inversion H; subst; exact Hn).
+  apply (IH _ _ _ _ H). apply dict_set_nodup. exact Hn.
+Qed.
+
+Lemma dict_get_set_same d k v : dict_get (dict_set d k v) k = Some v.
+Proof.
+  induction d as [|[k' v'] d IH]; cbn [dict_set dict_get]; [rewrite bytes_eqb_refl; reflexivity|].
+  destruct (bytes_eqb k' k) eqn:E; cbn [dict_get]; rewrite E; [reflexivity|exact IH].
+Qed.
+
+Lemma dict_get_set_other d k v k' : bytes_eqb k k' = false -> dict_get (dict_set d k v) k' = dict_get d k'.
+Proof.
+  intro Hk. induction d as [|[k0 v0] d IH]; cbn [dict_set dict_get].
+  - rewrite Hk. reflexivity.
+  - destruct (bytes_eqb k0 k) eqn:E; cbn [dict_get].
+    + apply bytes_eqb_eq in E. subst k0. rewrite Hk. reflexivity.
+    + rewrite IH. reflexivity.
+Qed.
+
+Lemma dict_set_same d k v : dict_get d k = Some v -> dict_set d k v = d.
+Proof.
+  induction d as [|[k0 v0] d IH]; cbn [dict_set dict_get]; [discriminate|].
+  destruct (bytes_eqb k0 k) eqn:E; intro H; [inversion H; reflexivity|]. rewrite IH by exact H. reflexivity.
+Qed.
+
+Lemma img_len_set_length d v : img_len (dict_set d K_Length v) = img_len d.
+Proof.
+  unfold img_len, get_abbr. rewrite !dict_get_set_other by reflexivity. reflexivity.
+Qed.
+
+Lemma take_n_spec : forall n (s a r : bytes), take_n n s = Some (a, r) -> s = a ++ r /\ length a = n.
+Proof.
+  induction n as [|n IH]; intros s a r H; cbn [take_n] in H.
+  - inversion H; subst. split; reflexivity.
+  - destruct s as [|c t]; [discriminate|]. destruct (take_n n t) as [[a' r']|] eqn:E; [|discriminate].
+    inversion H; subst. destruct (IH _ _ _ E) as [-> Hl]. split; [reflexivity|cbn; lia].
+Qed.
+
+Lemma content_space_cs s : cs_start (content_space s) = true.
+Proof.
+  unfold content_space. induction s as [|c t IH]; [reflexivity|]. cbn [skip_while].
+  destruct (is_content_space c) eqn:E; [exact IH|]. cbn [cs_start]. rewrite E. reflexivity.
+Qed.
+
+Lemma cs_start_prefix a r : cs_start (a ++ r) = true -> cs_start a = true.
+Proof. destruct a; [reflexivity|]. cbn. auto. Qed.
+
+(* the image-specific part of [image_dom] holds for everything the inline-image parser returns *)
+Theorem inline_image_sound fuel s ops op r :
+  inline_image fuel s = POk (ops, op) r ->
+  op = bs "BI" /\
+  exists d c, ops = [OStream d c] /\ NoDup (map fst d) /\
+              img_len d = Some (N.of_nat (length c)) /\ cs_start c = true /\
+              dict_get d K_Length = Some (OInt (Z.of_nat (length c))).
+Proof.
+  unfold inline_image. destruct (ptag (bs "BI") s) as [u r0| | | |]; try discriminate.
+  destruct fuel as [|f]; [discriminate|].
+  destruct (inner_dictionary _ f (content_space r0) []) as [d r1| | | |] eqn:Ed; try discriminate.
+  destruct (ptag (bs "ID") r1) as [u1 r2| | | |]; try discriminate.
+  destruct (image_data_stream (content_space r2) d) as [c r3| |] eqn:Ei; try discriminate.
+  destruct (ptag (bs "EI") (content_space r3)) as [u2 r4| | | |]; try discriminate.
+  intro H. inversion H; subst. split; [reflexivity|].
+  rewrite image_data_stream_len in Ei. destruct (img_len d) as [len|] eqn:El; [|discriminate].
+  destruct (_ <? len); [discriminate|].
+  destruct (take_n (N.to_nat len) (content_space r2)) as [[c' r']|] eqn:Et; [|discriminate].
+  inversion Ei; subst c' r'. destruct (take_n_spec _ _ _ _ Et) as [Es Hl].
+  exists (dict_set d K_Length (OInt (Z.of_nat (length c)))), c. split; [reflexivity|].
+  split; [apply dict_set_nodup; apply (inner_dictionary_nodup _ _ _ _ _ _ Ed); constructor|].
+  split; [rewrite img_len_set_length, El, Hl, N2Nat.id; reflexivity|].
+  split; [apply (cs_start_prefix c r3); rewrite <- Es; apply content_space_cs|].
+  apply dict_get_set_same.
+Qed.
+
+(* hence a decoded inline image whose dictionary values are well-formed and in normal form (what
+   the object parser returns, except reals spelled non-canonically) is in the domain of C14_rt and
+   is its own normal form: encoding it and decoding again returns exactly the same operation *)
+Theorem decoded_image_reencodes fuel s d c r :
+  inline_image fuel s = POk ([OStream d c], bs "BI") r ->
+  Forall (fun kv => obj_wf (snd kv)) d -> norm_dict d = d -> (nest (OStream d c) <= MAX_DEPTH)%nat ->
+  decode_content (encode_content [mkop "BI" [OStream d c]]) = DecOk [mkop "BI" [OStream d c]].
+Proof.
+  intros H Hw Hn Hd. destruct (inline_image_sound _ _ _ _ _ H) as [_ [d' [c' [E [Hnd [Hl [Hc Hg]]]]]]].
+  inversion E; subst d' c'.
+  assert (Hdom : op_dom (mkop "BI" [OStream d c])).
+  { split; [reflexivity|]. right. split; [reflexivity|]. exists d, c. rewrite Hn. auto. }
+  assert (Hk : known_class (mkop "BI" [OStream d c]) = false).
+  { unfold known_class, kw_operator, too_deep_op. cbn [mkop op_operator op_operands existsb orb andb].
+    change (prefixb (bs "null") (bs "BI")) with false. change (prefixb (bs "true") (bs "BI")) with false.
+    change (prefixb (bs "false") (bs "BI")) with false. cbn [orb].
+    destruct (Nat.ltb MAX_DEPTH (nest (OStream d c))) eqn:E2; [apply Nat.ltb_lt in E2; lia|reflexivity]. }
+  rewrite (content_rt_dom [mkop "BI" [OStream d c]])
+    by (apply Forall_cons; [assumption|apply Forall_nil]).
+  unfold norm_op, mkop. cbn [map op_operator op_operands norm_operand]. rewrite Hn. unfold stream_new.
+  rewrite (dict_set_same d K_Length _ Hg). reflexivity.
+Qed.
